@@ -101,7 +101,18 @@ def run_scenario(d, y, scenario, user_structure, simple, r, idx):
                      cn_solution=["1", "1"] if user_structure else None, genome="hg19")
         except AldyException:
             pass
-    sim.write_bam(bam, reads, length=sim.chrom_length_for(g))
+    decoy = scenario in ("no_locus_reads", "low_depth") and idx % 2 == 0
+    if decoy:
+        # the same coordinates on ANOTHER contig are well covered, and the file is a plain-text SAM (no index: the reader walks
+        # through every contig): reads of other contigs are not reads of the locus
+        other = [dict(x, ref_id=1, name="d" + x["name"]) for x in sim.simulate_reads(g, copies, depth=12)]
+        sim.write_bam(bam, reads + other, length=sim.chrom_length_for(g), header_extra=[{"SN": "21", "LN": sim.chrom_length_for(g)}])
+        import pysam
+        sam_txt = bam[:-4] + ".sam"
+        pysam.view("-h", "-o", sam_txt, bam, catch_stdout=False)
+        bam = sam_txt
+    else:
+        sim.write_bam(bam, reads, length=sim.chrom_length_for(g))
     cn_solution = ["1", "1"] if user_structure else None
     if user_structure and scenario == "pseudogene_only":
         cn_solution = [dele, dele]
@@ -152,7 +163,7 @@ def run_scenario(d, y, scenario, user_structure, simple, r, idx):
             outcome["simple_text"] = f.read()
     # database class: fewer than a quarter of the regions of a gene copy distinguish gene from pseudogene
     few_unique = len(g.regions) > 1 and 4 * len(g.unique_regions) < len(g.regions[1])
-    return {"meas": meas, "outcome": outcome, "sample_err": sample_err, "dele": dele, "gene_name": g.name, "few_unique": few_unique,
+    return {"meas": meas, "outcome": outcome, "sample_err": sample_err, "dele": dele, "gene_name": g.name, "few_unique": few_unique, "decoy_sam": decoy,
             "sample_name": os.path.basename(bam).split(".")[0]}
 
 
